@@ -56,7 +56,11 @@ TMsg ==
   /\ UNCHANGED <<N, m, a, kind, req, L, lastq>>
 
 \* the stream ended (Replicate returned): it must have ended with one of the closing answers
-TEnd == /\ IsEvent("end") /\ state[Ev.s] = "done" /\ Ev.err = ""
+\* - or, with an error, in front of an entry that cannot be delivered (an encoded entry whose payload is not a command,
+\* kind "bad"): whatever was sent before it is a consecutive prefix, nothing is skipped
+Undeliverable(s) == \E i \in (req[s] + sent[s])..(L[s] - 1) : i >= 1 /\ i <= Len(kind) /\ kind[i] = "bad"
+TEnd == /\ IsEvent("end")
+        /\ IF Ev.err = "" THEN state[Ev.s] = "done" ELSE state[Ev.s] = "run" /\ Undeliverable(Ev.s)
         /\ state' = [state EXCEPT ![Ev.s] = "idle"]
         /\ UNCHANGED <<N, m, a, kind, req, L, sent, lastq>>
 
